@@ -1272,6 +1272,7 @@ var trackedFns = []tracked{
 	{"internal/client/stream.go", "clientStream", "readLoop"},
 	{"internal/client/stream.go", "clientStream", "readErrorIfDone"},
 	{"client.go", "ClientConn", "newStream"},
+	{"client.go", "ClientConn", "invoke"},
 	{"server.go", "Server", "Serve"},
 	{"server.go", "Server", "Stop"},
 	{"server.go", "", "newHandler"},
